@@ -319,6 +319,10 @@ class ShardsFamily(_Base):
          'next_batch_from_generator', 'heartbeat'])
     cfg['app_error'] = (rng.randrange(cfg['shards'])
                         if rng.random() < 0.2 else None)
+    # a consumer that takes its time with a batch: the scheduler inside the
+    # generator is suspended meanwhile and finds several outcomes (a timeout,
+    # an application error, a finished shard) at once when it resumes
+    cfg['consume_delay'] = rng.choice([0, 0, 0, 1.0, 6.0])
     return cfg
 
   def drive(self, cfg, sim):
@@ -346,6 +350,8 @@ class ShardsFamily(_Base):
             retry_threshold=cfg['retry_threshold'])
       for b in gen:
         obs['out'].append(pipes.batch_key(b))
+        if cfg.get('consume_delay'):
+          time.sleep(cfg['consume_delay'])
       obs['end'] = ['ok']
     except Exception as e:  # pylint: disable=broad-exception-caught
       obs['end'] = ['exc', type(e).__name__, str(e)[:300]]
